@@ -134,11 +134,15 @@ def stepNsec (st : State) (w : List String) : State × String :=
     | none => (st, "bad-op")
   | ["z", "nxd", sg, q, _t] =>
     match parseName sg, parseName q with
-    | some sg, some q => (st, unitStr (verifyNameErrorNSEC q (filterToZone sg st.set)))
+    | some sg, some q =>
+      if !nameInZone q sg then (st, "notsigner") else
+      (st, unitStr (verifyNameErrorNSEC q (filterToZone sg st.set)))
     | _, _ => (st, "bad-op")
   | ["z", "nod", sg, q, t] =>
     match parseName sg, parseName q, t.toNat? with
-    | some sg, some q, some t => (st, unitStr (verifyNODATANSEC q t (filterToZone sg st.set)))
+    | some sg, some q, some t =>
+      if !nameInZone q sg then (st, "notsigner") else
+      (st, unitStr (verifyNODATANSEC q t (filterToZone sg st.set)))
     | _, _, _ => (st, "bad-op")
   | ["z", "dlg", sg, d] =>
     match parseName sg, parseName d with
